@@ -412,7 +412,7 @@ func runUnit(id, hdir, scratch string, u UnitSpec, o runOpts, listed map[string]
 		go func() {
 			defer wwg.Done()
 			cfg := &Config{listedKnown: listed, assertTimeoutS: 60, crossCheck: o.tier == "thorough", maxViolPerSite: 1,
-				maxSteps: maxSteps, maxPaths: maxPaths, maxDepth: 400, pipeTimeoutMS: 10000, tier: o.tier}
+				maxSteps: maxSteps, maxPaths: maxPaths, maxDepth: 400, pipeTimeoutMS: 10000, tier: o.tier, crossSolver: "z3"}
 			in := NewInterp(prog, cfg)
 			defer in.solver.Close()
 			for j := range jobCh {
